@@ -20,6 +20,8 @@ func runC05(c *Ctx, tier string) {
 	}
 	runC05Rest(c)
 	c.Floor("C05-L1", 40)
+	runTypeOrderSeparatesNamed(c, "C05-T1")
+	runTypeMemberListsReadOnly(c, "C05-I1")
 }
 
 func init() {
